@@ -15,7 +15,7 @@
                         amplifier of the path in turn (Multiband: the first per-band amplifier whose band holds c)
      same_chan a b      a and b agree on id, frequency, baud rate, slot width, label and transmitter data *)
 From Coq Require Import QArith Qround Permutation Lia.
-From Verif Require Import Prelude Model.Channels Proofs.Channels.
+From Verif Require Import Prelude Model.Channels Proofs.Channels Gen.ChannelsGen Proofs.ChannelsGen.
 Open Scope Q_scope.
 
 (* ---- construction: order irrelevant ---- *)
@@ -240,6 +240,71 @@ Theorem filter_commutes_with_permutation : forall path dmin dmax dsp (l l' : lis
   (let* s := mk_si l in filter_si path dmin dmax dsp s) = (let* s := mk_si l' in filter_si path dmin dmax dsp s).
 Proof. exact Proofs.Channels.filter_perm. Qed.
 Print Assumptions filter_commutes_with_permutation.
+
+(* ================= translator tie: what /repo's source says now is the model =================
+   Gen/ChannelsGen.v is regenerated from the source on every run (harness/pygen_c07.py: expressions translated, the numpy
+   plumbing around them template-matched, fail closed). *)
+Theorem C07_source_is_in_band : g_is_in_band = in_band.
+Proof. exact Proofs.ChannelsGen.gen_is_in_band. Qed.
+Print Assumptions C07_source_is_in_band.
+
+Theorem C07_source_constructor : forall l : list chan, g_mk_si l = mk_si l.
+Proof. exact Proofs.ChannelsGen.gen_mk_si. Qed.
+Print Assumptions C07_source_constructor.
+
+Theorem C07_source_constructor_checks : g_adj_over = adj_over /\ g_exceeds = exceeds.
+Proof. exact (conj Proofs.ChannelsGen.gen_adj_over Proofs.ChannelsGen.gen_exceeds). Qed.
+Print Assumptions C07_source_constructor_checks.
+
+Theorem C07_source_select_channels : forall p (s : si), g_select_channels p s = select p s.
+Proof. exact Proofs.ChannelsGen.gen_select_channels. Qed.
+Print Assumptions C07_source_select_channels.
+
+Theorem C07_source_demux : forall (s : si) b, g_demux s b = demux s b.
+Proof. exact Proofs.ChannelsGen.gen_demux. Qed.
+Print Assumptions C07_source_demux.
+
+Theorem C07_source_add : forall a b : si, g_si_add a b = si_add a b.
+Proof. exact Proofs.ChannelsGen.gen_si_add. Qed.
+Print Assumptions C07_source_add.
+
+Theorem C07_source_mux : forall l : list si, g_mux l = mux l.
+Proof. exact Proofs.ChannelsGen.gen_mux. Qed.
+Print Assumptions C07_source_mux.
+
+Theorem C07_source_filter_si : forall cr (s : si), g_filter_bands cr s = filter_bands cr s.
+Proof. exact Proofs.ChannelsGen.gen_filter_bands. Qed.
+Print Assumptions C07_source_filter_si.
+
+Theorem C07_source_calculate_spacing : forall d f s lo hi, g_calculate_spacing d f s lo hi = spacing_of d f s lo hi.
+Proof. exact Proofs.ChannelsGen.gen_calculate_spacing. Qed.
+Print Assumptions C07_source_calculate_spacing.
+
+Theorem C07_source_band_intersection : forall d f s, g_inter d f s = inter d f s.
+Proof. exact Proofs.ChannelsGen.gen_inter. Qed.
+Print Assumptions C07_source_band_intersection.
+
+Theorem C07_source_find_common_range : forall amps dmin dmax dsp ddb,
+  g_find_common_range amps dmin dmax dsp ddb = find_common_range_gen amps dmin dmax dsp ddb.
+Proof. exact Proofs.ChannelsGen.gen_find_common_range. Qed.
+Print Assumptions C07_source_find_common_range.
+
+Theorem C07_source_automatic_nch : forall fmin fmax sp, g_automatic_nch fmin fmax sp = automatic_nch fmin fmax sp.
+Proof. exact Proofs.ChannelsGen.gen_automatic_nch. Qed.
+Print Assumptions C07_source_automatic_nch.
+
+Theorem C07_source_grid_frequency : forall fmin sp baud label tx i,
+  g_grid_freq fmin sp i = cf (grid_chan fmin sp baud label tx i).
+Proof. exact Proofs.ChannelsGen.gen_grid_freq. Qed.
+Print Assumptions C07_source_grid_frequency.
+
+Theorem C07_source_edfa_call : forall a (s : si), g_edfa_call a s = edfa_call a s.
+Proof. exact Proofs.ChannelsGen.gen_edfa_call. Qed.
+Print Assumptions C07_source_edfa_call.
+
+Theorem C07_source_multiband_call : forall subs (s : si), g_multi_call subs s = multi_call subs s.
+Proof. exact Proofs.ChannelsGen.gen_multi_call. Qed.
+Print Assumptions C07_source_multiband_call.
 
 (* ================= non-vacuity ================= *)
 (* frequencies in GHz: C band 191250..196150, L band 186550..190050 *)
